@@ -634,7 +634,7 @@ func (h *histRun) opSession(op string) {
 		"idtok", hc.idTok, "autologin", hc.autoLogin,
 		"op", op, "now", now, "ck", pre.ck, "plan", plan, "secs", expiresIn,
 		"newat", hx(fmt.Sprintf("at%d", h.genNext(pre))), "newrt", hx(map[bool]string{true: "", false: fmt.Sprintf("rt%d", h.genNext(pre))}[noNewRT]), "dup", dup, "afterrefusal", afterRefusal,
-		"lag", int64(h.s.lag), "ignored", ignored, "nav", nav, "cauth", clientAuth != "", "cid", clientID != "", "hop", hop, "sidmatch", sidMatch}
+		"lag", int64(h.s.lag+time.Since(h.s.born)), "ignored", ignored, "nav", nav, "cauth", clientAuth != "", "cid", clientID != "", "hop", hop, "sidmatch", sidMatch}
 	kv = append(kv, h.stFields("", pre)...)
 	kv = append(kv, "status", resp.Status, "fwd", len(ups) > 0, "upauth", upAuth, "nauth", nAuthVals, "upid", upID, "contacted", contacted, "granted", granted,
 		"hasbody", hasBody, "bactive", body.Session.Active, "bnext", body.Tokens.NextAuto, "bcooldown", body.Tokens.Cooldown, "cleared", sessCleared, "leak", hx(leak),
